@@ -107,6 +107,7 @@ def run(ck):
         (-x0 + 3 * sp.ceiling(x0 / 3) - 1, ((x0, 1, 3),)),
         (2 * sp.Heaviside(x0 - sp.Rational(5, 2)) - 2 * sp.Heaviside(x1 - sp.Rational(3, 2)), ((x0, 1, 4), (x1, 1, 4))),
         (-sp.Rational(11, 2) + 12 / (x0 * x1), ((x0, 4, 5), (x1, 4, 7))),
+        (sp.Min(x0 * x1 - x1 + 1, x0 * x1, evaluate=False) - x0 * x1 + 1, ((x0, 1, 4), (x1, 1, 4))),
     ]
     for i in range(-len(corpus), ck.n(250, 6000)):
         nsym = rng.randint(1, 3)
@@ -173,11 +174,25 @@ def run(ck):
         payload = {"formula": str(f), "box": [(str(s), lo, hi) for s, lo, hi in bounds], "mode": mode, "terms_do_not_cross_zero": tdz, "verdict": verdict.name,
                    "counterexample_point": list(pt), "value_there": str(v)}
         finding = None
+        # F16 attribution: evaluating the formula's Min / Max with accelforge's patched sympy connectivity test (`f.doit()`, the first thing the
+        # comparator does) changes its value at some point of the box
+        try:
+            if mode == "sign" and (f.has(sp.Max) or f.has(sp.Min)):
+                fd = f.doit()
+                syms_ = [b_[0] for b_ in bounds]
+                for pt_, v_ in values:
+                    w_ = fd.xreplace({a_: sp.Integer(c_) for a_, c_ in zip(syms_, pt_)})
+                    if w_.is_Rational and Fraction(int(w_.p), int(w_.q)) != v_:
+                        finding = "F16"
+                        payload["formula_after_doit"] = str(fd)
+                        break
+        except Exception:  # noqa
+            pass
         # F15 attribution: for some expression the comparator handed to sympy's relational evaluation (`g >= 0` / `g <= 0` under the symbols'
         # assumptions, at any depth of its recursion) sympy returned a definite truth value that a point of the box contradicts
         try:
             bmap = {str(b_[0]): (b_[1], b_[2]) for b_ in bounds}
-            for g in traced[:60]:
+            for g in (traced[:60] if finding is None else []):
                 if getattr(g, "has", None) and g.has(sp.ceiling):
                     g = erase(sp, g)          # what the comparator really hands to sympy: the formula with its ceilings erased
                 fs_ = sorted(getattr(g, "free_symbols", ()), key=str)
